@@ -15,6 +15,14 @@ CLAIMED = {
  "C10": ("3 (C10)", "parseChildRanges (split, min/max substitution, order test, sort, coalesce, subset test, validation) is executed on every restriction skeleton of <= 2 (thorough 3) parts against an arbitrary valid parent set, with all endpoints symbolic over the full 64-bit domain and a universally quantified member x: result set == written set, sorted/disjoint/coalesced, subset of the parent, and acceptance/rejection exactly as the property states; integers/lengths and decimal64 at every fraction-digits.", "number parsers stubbed inside the harness (contract decided by C15); Number.Less summarised"),
  "C02": ("3 (C02)", "yang.Parse (the whole of lex.go and parse.go, from SSA) is run on every ASCII text of <= 4 (thorough 5) bytes and on four structured families (strings after 15 kinds of line prefix with every body over the bytes the reader distinguishes, token sequences with every boundary spelling, brace nestings, escapes in and outside pattern arguments); acceptance, the whole forest and every argument byte are compared with an independent RFC 7950 section 6 reader written in the harness.", "symbolic bytes assumed ASCII; the reference reader is part of the trusted base"),
  "C16": ("3 (C16)", "Statement positions are recomputed from the text by the reference reader for every accepted text of all C02 universes and for layouts of tabs, CR LF, multi-byte characters, comments and multi-line strings; for single-fault texts of 9 fault kinds after such layouts the first error line must name the offending token, backslash or opener. Positions in build/resolve errors (third sentence) are not yet covered in this revision.", "symbolic bytes assumed ASCII"),
+ "C03": ("4 (C03)", "build() is driven directly for every (parent keyword, first child, second child) combination read from the library's own keyword tables (built by its init from the struct tags of the current source), with every mandatory substatement present or one omitted and argument bytes symbolic; the produced node is compared by a generic reflection walk with the statement tree (exactly once, right field, source order, extensions list, name, parent link, back reference); unknown-in-context, repeated single-valued, missing mandatory and non-module roots must be rejected.", "keyword combinations are enumerated by solver-free symbolic choice; the solver's part is the argument bytes"),
+ "C04": ("4 (C04)", "A tree walker (proper tree, parent links incl. rpc input/output, no shared node object, kind/Dir/ListAttr/Type consistency, choice children are cases, no unapplied augment, no recorded error anywhere) runs on every cleanly processed module set of the composition, grouping, composite and late-collision universes.", ""),
+ "C06": ("4 (C06)", "For every grouping body of the stated universe, defined locally or in another module and used in two containers, a list and a third module: each instance equals the body written inline (processed by a fresh set), names bind in the defining scope, instances share no node, list attributes or child map, and a default replacement, list-attribute deviation and augment aimed at one instance (every subset, fresh set) leave all other instances identical.", ""),
+ "C07": ("4 (C07)", "Every augment of the composition universe (two augmenting modules, chains across three modules, targets created by uses, submodule, choice/case, written and unwritten rpc input/output, notification) is present exactly once at its place with the augmenting module's namespace, nothing is left unapplied, and a second run in another load order gives the same dump; collisions, leaf targets and missing targets with symbolic names must be reported.", ""),
+ "C08": ("4 (C08)", "Every single deviate statement (thorough: pairs, in written order) of every kind naming every property, on six kinds of target, with and without the ignore option, is compared with a reference application of RFC 7950 7.20.3 whose pre-state comes from the run without the deviating module; every untargeted node must be identical in both runs; the listed unappliable cases must be reported.", ""),
+ "C11": ("4 (C11)", "Identities with symbolic names (every equality pattern) placed in a module, its submodule and an importing module, with bases spelled with and without prefixes (own, import, unknown): the Values of every identity must be exactly the transitive closure (Warshall over symbolic edge terms) once each, undefined bases and cycles must be reported, the identityref leaf must point at the named identity.", "order determinism of Values under map iteration is C05's subject"),
+ "C12": ("4 (C12)", "ReadOnly, Namespace and InstantiatingModule of every node of every schema of the composition universe are compared with values computed from the source structure alone (nearest explicit config, rpc output, module whose text placed the node).", ""),
+ "C17": ("4 (C17)", "On every schema of the composition universe and on the composite schema: for every (start, target) pair the absolute prefixed path (prefix taken from the start's defining module) and the relative path with .. steps must return the very node (pointer identity); every absolute path with one step replaced by a non-existent name - an unrelated one and the two near misses with a symbolic letter before/after the real name - must return nil.", ""),
 }
 
 NOT_APPLICABLE = {
